@@ -12,10 +12,14 @@ use std::convert::TryInto;
 fn parse_xref_section_from_stream(first_id: u32, mut num_entries: usize, width: &[usize], data: &mut &[u8], resolve: &impl Resolve) -> Result<XRefSection> {
     let mut entries = Vec::new();
     let [w0, w1, w2]: [usize; 3] = width.try_into().map_err(|_| other!("invalid xref length array"))?;
-    if num_entries * (w0 + w1 + w2) > data.len() {
+    if w0 > 8 || w1 > 8 || w2 > 8 || w0 + w1 + w2 == 0 {
+        bail!("invalid xref stream field widths [{} {} {}]", w0, w1, w2);
+    }
+    let entry_len = w0 + w1 + w2;
+    if num_entries > data.len() / entry_len {
         if resolve.options().allow_xref_error {
             warn!("not enough xref data. truncating.");
-            num_entries = data.len() / (w0 + w1 + w2);
+            num_entries = data.len() / entry_len;
         } else {
             bail!("not enough xref data");
         }
